@@ -32,7 +32,7 @@ func NewMirror(ctx context.Context, log *slog.Logger, opts ...Opt) (Mirror, erro
 
 	var err error
 	for _, opt := range opts {
-		err = errors.Join(opt(&e, nil))
+		err = errors.Join(err, opt(&e, nil))
 	}
 	if err != nil {
 		return nil, err
